@@ -38,6 +38,7 @@ import (
 
 	"helm.sh/helm/v4/pkg/action"
 	chart "helm.sh/helm/v4/pkg/chart/v2"
+	"helm.sh/helm/v4/pkg/chart/v2/loader"
 	chartutil "helm.sh/helm/v4/pkg/chart/v2/util"
 	"helm.sh/helm/v4/pkg/cli"
 	"helm.sh/helm/v4/pkg/downloader"
@@ -122,6 +123,39 @@ type c17DlRes struct {
 type c17Obs struct {
 	Res []c17Res   `json:"res"`
 	Dls []c17DlRes `json:"dls"`
+	// hypotheses of C17_sign_then_verify on the genuine pair: the Plaintext clearsign returns
+	// is byte for byte yaml(metadata) "\n...\n" yaml(sums) rebuilt here from the archive
+	BlockNote string `json:"block_note,omitempty"`
+}
+
+// c17CheckBlock rebuilds what messageBlock must have signed and compares it with the decoded text
+func c17CheckBlock(c *c17Case) string {
+	ch, err := loader.LoadArchive(bytes.NewReader(c.Archive))
+	if err != nil {
+		return "archive does not load: " + err.Error()
+	}
+	meta, err := yaml.Marshal(ch.Metadata)
+	if err != nil {
+		return err.Error()
+	}
+	sums, _ := yaml.Marshal(&provenance.SumCollection{Files: map[string]string{c.Name: "sha256:" + c17Hex(c.Archive)}})
+	want := string(meta) + "\n...\n" + string(sums)
+	block, _ := clearsign.Decode(c.Prov)
+	if block == nil {
+		return "the signed provenance does not decode"
+	}
+	if string(block.Plaintext) != want {
+		return "decoded Plaintext differs from yaml(metadata)+separator+yaml(sums)"
+	}
+	for _, l := range strings.SplitAfter(want, "\n") {
+		if strings.HasSuffix(l, " \n") || strings.HasSuffix(l, "\t\n") || strings.HasSuffix(l, "\r\n") {
+			return "the printed block has a blank before a line feed"
+		}
+	}
+	if parts := strings.Split(want, "\n...\n"); len(parts) != 2 || parts[0] != string(meta) || parts[1] != string(sums) {
+		return "the printed block does not split into exactly metadata and sums"
+	}
+	return ""
 }
 
 func (*c17) ID() string        { return "C17" }
@@ -733,6 +767,7 @@ func (p *c17) Execute(ci any) any {
 	for i, d := range c.Dls {
 		obs.Dls = append(obs.Dls, c17RunDl(&c, d, filepath.Join(work, fmt.Sprintf("d%d", i)), rings))
 	}
+	obs.BlockNote = c17CheckBlock(&c)
 	c17Count("mutant_verifications (Signatory.Verify + VerifyChart each)", len(obs.Res))
 	c17Count("strategy_runs (DownloadTo / LocateChart / Pull)", len(obs.Dls))
 	for _, r := range obs.Res {
@@ -836,6 +871,9 @@ func (*c17) Oracle(ci, oi any) []hx.Violation {
 			seen[sig] = true
 			vs = append(vs, hx.Violation{Sig: "C17:" + sig, What: what})
 		}
+	}
+	if obs.BlockNote != "" {
+		flag("sign-hypothesis", "hypothesis of C17_sign_then_verify fails on "+c.Name+": "+obs.BlockNote)
 	}
 	for i, m := range c.Muts {
 		if i >= len(obs.Res) {
